@@ -34,3 +34,10 @@ C('C16', 'history + byte-array reference model in lock-step; whole backing store
 C('C19', 'history + bytearray reference model in lock-step over three kinds of backing memory; ASan (incl. memcpy-param-overlap) deciding',
   'Exploration: random 50-operation histories over bytearray / array.array / cdata memory: buffer windows, index and slice reads with arbitrary bounds, item/slice assignment from 5 source kinds incl. overlapping views and wrong lengths, comparisons, from_buffer length/aliasing/fixed-size/require_writable, memmove over all dst/src kinds and overlap offsets; every read and the whole memory compared with the model after each step.',
   'buffer[i] returns 1-byte bytes by design; cdata objects as slice-assignment sources are outside the stated class (see DESIGN.md findings table).')
+
+C('C01', 'differential oracle: gcc probe (sizeof/_Alignof/offsetof/bitfield storage image) vs cffi on the ASan/UBSan backend; clang second opinion on the thorough tier',
+  'Exploration: random struct/union declarations over all listed member kinds incl. anonymous/nested aggregates, bitfields of every explicit integer type and width 0..width(type), zero-width and unnamed bitfields, flexible arrays, packed/pack=N; size, alignment, every named offset and every bitfield storage image compared with the compiler; no declaration may be rejected.',
+  'Trusts gcc as the platform compiler; aggregates always have a named member; x86-64 SysV branch only.')
+C('C17', 'runtime monitor of the eq=>hash implication and differential oracles (address comparison; Python value obtained through memory) over generated pairs',
+  'Exploration: pairs over primitive cdata of every type/value class (values biased to be numerically equal across types, -0.0, NaN, 2**53+1), pointer/array/struct/union/function cdata at shared and distinct addresses, and plain Python values; all six comparison operators and hash compared.',
+  'long double has no Python value (implication only); NaN hashes are identity-based in CPython and not compared.')
